@@ -1045,8 +1045,8 @@ Section Local.
     change (at_bound_b tol s1 val v) with (at_bound_b tol s val v). change (at_bound_b tol s2 val v) with (at_bound_b tol s val v).
     assert (C : consumes s v = consumes s1 v || consumes s2 v) by (unfold consumes; cbn [m_cns s s1 s2]; apply existsb_app).
     assert (E : bneck (l1 ++ l2) v = bneck l1 v || bneck l2 v) by (unfold bneck; apply existsb_app).
-    assert (E1 := bneck_consumes l1 v). assert (E2 := bneck_consumes l2 v). specialize (Hsep v).
-    fold (consumes s1 v) in E1. fold (consumes s2 v) in E2. rewrite C, E.
+    assert (E1 : bneck l1 v = true -> consumes s1 v = true) by (exact (bneck_consumes l1 v)).
+    assert (E2 : bneck l2 v = true -> consumes s2 v = true) by (exact (bneck_consumes l2 v)). specialize (Hsep v). rewrite C, E.
     destruct (consumes s1 v), (consumes s2 v), (bneck l1 v), (bneck l2 v), (at_bound_b tol s val v); cbn in *; try reflexivity;
       try (exfalso; apply Hsep; split; reflexivity); try (specialize (E1 eq_refl); discriminate); try (specialize (E2 eq_refl); discriminate).
   Qed.
@@ -1068,3 +1068,13 @@ Section Local.
       (forallb (var_feasible_b tol s1 val) (seq 0 (length vars))), (forallb (var_feasible_b tol s2 val) (seq 0 (length vars))); reflexivity.
   Qed.
 End Local.
+
+Lemma selective_char_split : forall tol l1 l2 vars val, separated l1 l2 vars ->
+  (alloc_feasible_b tol (mkMsys l1 vars) val && bottleneck_b tol (mkMsys l1 vars) val = true /\
+   alloc_feasible_b tol (mkMsys l2 vars) val && bottleneck_b tol (mkMsys l2 vars) val = true) <->
+  alloc_feasible_b tol (mkMsys (l1 ++ l2) vars) val && bottleneck_b tol (mkMsys (l1 ++ l2) vars) val = true.
+Proof.
+  intros tol l1 l2 vars val H. rewrite (bottleneck_split tol l1 l2 vars val H), (feasible_split tol l1 l2 vars val).
+  destruct (alloc_feasible_b tol (mkMsys l1 vars) val), (alloc_feasible_b tol (mkMsys l2 vars) val),
+    (bottleneck_b tol (mkMsys l1 vars) val), (bottleneck_b tol (mkMsys l2 vars) val); cbn; intuition discriminate.
+Qed.
